@@ -65,13 +65,24 @@ def gen_cases(tier, seed, scale=1):
     for _ in range(40 if tier == "quick" else 1500):
         leaves = "".join(rnd.choice("ggrt") for _ in range(rnd.randrange(1, 6)))
         ops, on = [], True
+        live = len(leaves)
         for _ in range(rnd.randrange(1, 6)):
-            op = rnd.choice(["update", "rereg", "disable"]) if on else "enable"
+            op = rnd.choice(["update", "rereg", "disable", "retire", "retire"]) if on else "enable"
+            if op == "retire":
+                if live <= 1:
+                    op = "update"
+                else:
+                    live -= 1
+            if op == "rereg" and not any(c != "t" for c in leaves):
+                op = "update"
             on = op != "disable"
             ops.append(op)
+            if op == "retire":
+                ops.append("update")
         lines.append("composite %s %s" % (leaves, ",".join(ops)))
     for leaves in ("gr", "rg", "grg", "ggr", "rr", "tg", "gt", "tgr", "gtg", "ttg"):
         lines.append("composite %s update,rereg,disable,enable,update" % leaves)
+        lines.append("composite %s update,retire,update,disable,enable" % leaves)
     return lines
 
 
@@ -138,6 +149,13 @@ class Monitor:
                     return "an operation on the composite source failed"
                 if kv.get("own") != "true":
                     return "a leaf of the composite source sits in the poller under a key of another source"
+                # every fd-backed leaf that is in the poller at the end answers an event on its fd
+                last = stages[-1].split(",")
+                want_poked = [str(i) for i, s in enumerate(last) if s not in ("-", "t")]
+                got_poked = [x for x in kv.get("poked", "-").split(",") if x != "-"]
+                if got_poked != want_poked:
+                    return ("composite %s after %s: the leaves %s are registered with the poller but an event on their fds reached the leaves %s"
+                            % (w[1], w[2] if len(w) > 2 else "-", ",".join(want_poked) or "-", ",".join(got_poked) or "-"))
                 timers = [str(i) for i, c in enumerate(w[1]) if c == "t"]
                 fired = [x for x in kv.get("fired", "-").split(",") if x != "-"]
                 if any(x not in timers for x in fired):
